@@ -4,6 +4,7 @@ CONSTANTS
   Steps = {1, 2}
   MaxEv = 0
   Depth = 10
+  Mode = "sim"
   Side = {"c"}
 INVARIANT Emit
 CHECK_DEADLOCK FALSE
